@@ -809,6 +809,11 @@ func populateExpectedStreamResponse(testCase *conformancev1.TestCase) error {
 		case conformancev1.StreamType_STREAM_TYPE_FULL_DUPLEX_BIDI_STREAM:
 			// For a full duplex stream, the first request should be echoed back in the first
 			// payload. The second should be echoed back in the second payload, etc. (i.e. a ping pong interaction)
+			if idx >= len(testCase.Request.RequestMessages) {
+				// More responses than requests: the rest are sent after the request
+				// stream is complete and do not echo any request.
+				break
+			}
 			expected.Payloads[idx].RequestInfo = &conformancev1.ConformancePayload_RequestInfo{
 				Requests: []*anypb.Any{testCase.Request.RequestMessages[idx]},
 			}
